@@ -5,7 +5,10 @@ cd /repo || exit 2
 if [ -n "$(git status --porcelain --untracked-files=no)" ]; then echo "/repo not clean"; exit 2; fi
 git apply "/verif/seeded/$ID/patch.diff" || { echo "$ID: patch does not apply"; exit 2; }
 cd /verif
+# the evidence directory describes the unchanged tree: a run against a modified tree must not overwrite it
+SAVE=$(mktemp -d /tmp/verif-evidence.XXXXXX); cp evidence/*.json "$SAVE"/ 2>/dev/null
 OUT=$(./check "$PROP" "$TIER" 2>&1); CODE=$?
+cp "$SAVE"/*.json evidence/ 2>/dev/null; rm -rf "$SAVE"
 git -C /repo checkout -- .
 NV=$(echo "$OUT" | grep -c "^VIOLATION")
 SIGS=$(echo "$OUT" | grep -o "sig=[^ ]*" | sort -u | head -4 | tr '\n' ' ')
